@@ -53,7 +53,7 @@ def check_c09(prop, tier):
         cfg = snapmc(work, ["Inv_C09", "Inv_C09nonvac"], {"BothLen": "0"} if tier == "quick" else {"BothLen": "0", "BuildLen": "4"})
         r = require_ok(tlc("SnapMC", cfg, work, workers=8, timeout=3000), "model check of C09")
         res.add(states=r["distinct"], transitions=r["generated"], checker_cmd="tlc SnapMC INVARIANT Inv_C09 Inv_C09nonvac (every listing x every single and double structural fault)")
-        cs = contents(rng, 4 if tier == "quick" else 40)
+        cs = contents(rng, 4 if tier == "quick" else 150)
         h = run_harness("snap", cs, work, "faults", timeout=3000)
         s = tv(h["trace"], "TraceSnapFault", "TraceSnapFault", work, timeout=3000)
         res.add(traces_validated_against_impl=s["packages"], faults_validated=s["faults"], truncation_points=s["truncations"],
